@@ -265,8 +265,8 @@ build() {
     CPPType *type = parser.parse_type(*ci);
     if (type == nullptr) {
       cerr << "Failure to parse forcetype " << *ci << "\n";
+      continue;
     }
-    assert(type != nullptr);
     get_type(type, true);
   }
 
